@@ -2,7 +2,7 @@
    Model: Ext/Hub2Sol.v, interpreted from the text extracted from the current Hub2.sol (Gen/SrcFactsSol.v)
    and co-executed with the compiled contract on go-ethereum's simulated chain (suite "evm"), the signed
    digests being the real hub types' GetCheckpoint values. *)
-From V Require Import Base.Prelude Base.Val Num.Arith Gen.SrcFactsSol Gen.SrcFactsGo Ext.Hub2Sol Hub.SignerSet Hub.Prune Proofs.ListX Proofs.C08Proofs Proofs.C08Prune.
+From V Require Import Base.Prelude Base.Val Num.Arith Gen.SrcFactsSol Gen.SrcFactsGo Ext.Hub2Sol Hub.SignerSet Hub.Prune Proofs.ListX Proofs.C08Proofs Proofs.C08Prune Proofs.C08Once.
 Local Open Scope Z_scope.
 
 (* The current Hub2.sol compiles to the conditions the theorems below reason about (re-checked on every run). *)
@@ -77,6 +77,23 @@ Theorem C08_minter_multisig :
      msig_accepts (map (fun p => msig_weight p total) powers) = true -> 667 * total <= 1000 * zsum powers).
 Proof. split; [exact conn_threshold_value | exact msig_sound]. Qed.
 Print Assumptions C08_minter_multisig.
+
+(* In nonce order, each at most once: after the contract has executed the batch (signer-set update) with nonce n, no
+   batch (update) with a nonce <= n -- in particular not the same one again -- is ever accepted, whatever operations
+   happen in between.  With C04 (a transfer is in at most one batch) this is "paid out at most once" on the external side. *)
+Theorem C08_batch_nonce_executes_at_most_once :
+  forall s trs n t q mode exec ops trs' n' t' q' mode' exec',
+    snd (submit_batch s trs n t q mode exec) = true -> n' <= n ->
+    snd (submit_batch (srun (fst (submit_batch s trs n t q mode exec)) ops) trs' n' t' q' mode' exec') = false.
+Proof. exact batch_nonce_executes_at_most_once. Qed.
+Print Assumptions C08_batch_nonce_executes_at_most_once.
+
+Theorem C08_valset_nonce_executes_at_most_once :
+  forall s m n q mode exec ops m' n' q' mode' exec',
+    snd (update_valset s m n q mode exec) = true -> n' <= n ->
+    snd (update_valset (srun (fst (update_valset s m n q mode exec)) ops) m' n' q' mode' exec') = false.
+Proof. exact valset_nonce_executes_at_most_once. Qed.
+Print Assumptions C08_valset_nonce_executes_at_most_once.
 
 (* Hub side of "in nonce order": whatever validators change, whatever executions are attested and however
    far the height jumps, a signer set leaves the hub's store only when a set with a HIGHER nonce has been observed
